@@ -32,11 +32,12 @@ struct Job {
 
 static std::vector<std::vector<int> > rounds;
 static bool nomaster = false;
+static int boss = 0;      // rank of the dedicated master
 
 // one round of the dedicated-master pattern
 static void dedicatedRound(boost::mpi::communicator& comm, int rank, size_t k) {
     comm.barrier();
-    if (rank == 0) {
+    if (rank == boss) {
         {
             std::unique_lock<std::mutex> lk(W->mu);
             std::ostringstream os; os << "round " << k << " " << rounds[k].size();
@@ -50,12 +51,12 @@ static void dedicatedRound(boost::mpi::communicator& comm, int rank, size_t k) {
             master.check_workers();
         }
         std::unique_lock<std::mutex> lk(W->mu);
-        std::ostringstream os; os << "m 0 " << k << " " << master.DispatchMap.size();
+        std::ostringstream os; os << "m " << rank << " " << k << " " << master.DispatchMap.size();
         for (std::map<pMPI::JobId, pMPI::WorkerId>::const_iterator it = master.DispatchMap.begin(); it != master.DispatchMap.end(); ++it)
             os << " " << it->first << " " << it->second;
         W->log.push_back(os.str());
     } else {
-        pMPI::MPIWorker worker(comm, 0);
+        pMPI::MPIWorker worker(comm, boss);
         for (; !worker.is_finished();) {
             worker.receive_order();
             if (worker.is_working()) {
@@ -111,6 +112,7 @@ int main(int argc, char** argv) {
     if (argc < 6) { std::fprintf(stderr, "usage: disp P seed maxSteps seeNum seeDen\n"); return 2; }
     int P = std::atoi(argv[1]);
     nomaster = argc > 6 && std::string(argv[6]) == "nomaster";
+    if (argc > 7) boss = std::atoi(argv[7]);
     unsigned long long seed = std::strtoull(argv[2], 0, 10);
     long maxSteps = std::atol(argv[3]);
     std::string line;
@@ -134,15 +136,19 @@ int main(int argc, char** argv) {
         for (;;) {
             W->cv.wait(lk, [&] { if (W->turn != -1) return false;
                                  for (int r = 0; r < P; ++r) if (W->st[r] == RUN) return false; return true; });
-            std::vector<int> tests, bars; int done = 0;
+            std::vector<int> tests, bars, blocked; int done = 0;
             for (int r = 0; r < P; ++r) {
                 if (W->st[r] == WAIT_TEST) tests.push_back(r);
                 else if (W->st[r] == WAIT_BARRIER) bars.push_back(r);
+                else if (W->st[r] == WAIT_BCAST) {
+                    // runnable (like a rank at a test) once the value of its pending broadcast has been deposited
+                    if (W->bcastVals.count(W->bcastCount[r] - 1)) tests.push_back(r); else blocked.push_back(r);
+                }
                 else if (W->st[r] == DONE) ++done;
             }
             if (done == P) break;
             if (W->hang) {       // wind down: wake everybody so that they abort
-                int r = tests.empty() ? bars[0] : tests[0];
+                int r = !tests.empty() ? tests[0] : (!bars.empty() ? bars[0] : blocked[0]);
                 W->turn = r; W->cv.notify_all();
                 continue;
             }
@@ -156,7 +162,7 @@ int main(int argc, char** argv) {
                     W->turn = bars[i]; W->cv.notify_all();
                     W->cv.wait(lk, [&] { return W->turn == -1; });
                 }
-            } else { W->hang = true; hangReason = "barrier-mismatch (some ranks left, others wait in a barrier)"; }
+            } else { W->hang = true; hangReason = "collective-mismatch (some ranks wait in a barrier or broadcast that the others never reach)"; }
         }
     }
     for (size_t i = 0; i < th.size(); ++i) th[i].join();
